@@ -1158,7 +1158,7 @@ pub fn run(ctx: &Ctx) -> i32 {
     reports.push(exhaustive_suite(ctx, "opptype_all_mode_patterns", 1024, &sweep_opptype));
     reports.push(exhaustive_suite(ctx, "cpfmt_all_pwi_phi", 512, &sweep_cpfmt));
     reports.push(simple_suite("plusptype_follower_fields", true, sweep_plus_misc));
-    let cases = ctx.tier.pick(300_000u64, 20_000_000u64);
+    let cases = ctx.tier.pick(1_000_000u64, 20_000_000u64);
     reports.push(tape_suite(ctx, "random_cross_products", cases, 260, &random_header_case));
     let cfg = PicCfg { max_dim: 64, max_fixed_mbs: 48, budget: 400, extreme_aspect: false, ..PicCfg::quick() };
     let scases = ctx.tier.pick(20_000u64, 300_000u64);
